@@ -50,14 +50,17 @@
 (*   TokensWellFormed  (the formatter writes no leading/trailing/double    *)
 (*              blank -- the assumption under which a blank token is a     *)
 (*              maximal blank run)                                         *)
-(* With Emit = TRUE every state prints a CASE line (the structure and its  *)
-(* expected token string) that harness/props/c13.py replays.               *)
+(* (the big configurations check their conjunction AllProps, so that       *)
+(* Format and Parse are evaluated once per structure).  With Emit = TRUE   *)
+(* every state prints a CASE line (the structure and its expected token    *)
+(* string) that harness/props/c13.py replays.                              *)
 (*                                                                         *)
 (* Spec-level negative controls (each tried; each makes TLC report the     *)
 (* invariant; c13.py re-runs them in every check):                         *)
 (*   RestrictionsFirst = TRUE  (formatter writes the restriction formula   *)
 (*                              before the architecture list: wrong group  *)
-(*                              order for the regex)  -> NoWarning violated*)
+(*                              order for the regex)                       *)
+(*                              -> NoWarning, Stable (and Inverse) violated*)
 (*   IgnoreNegation = TRUE     (parser does not take the '!' marker off)   *)
 (*                                                    -> Inverse violated  *)
 (*   PipeFirst = TRUE          (parser splits at '|' before ',')           *)
